@@ -58,7 +58,7 @@ pub fn check_db(db: &AbsDb, st: &mut Stats) -> Check {
     let mut pkg = Package::open(buf.clone()).map_err(|e| Fail::new(format!("{P} open-failed"), format!("a well-formed database was refused: {e}; {}", describe(db))))?;
     let got = observe(&mut pkg).map_err(|e| Fail::new(format!("{P} unreadable"), format!("{e}; {}", describe(db))))?;
     if let Some((part, d)) = want.diff(&without_catalog(&got)) {
-        return Err(Fail::new(format!("{P} read-differs part={part}"), format!("encoded vs reported: {}; {}", &d[..d.len().min(500)], describe(db))));
+        return Err(Fail::new(format!("{P} read-differs part={part}"), format!("encoded vs reported: {}; {}", crate::engine::clip(&d, 500), describe(db))));
     }
     // the catalog as the API shows it: _Tables lists the tables in file order
     if let Some((_, rows)) = got.tables.get("_Tables") {
@@ -158,14 +158,14 @@ pub fn check_db(db: &AbsDb, st: &mut Stats) -> Check {
         Err(_) => {
             let after = observe(&mut pkg).map_err(|e| Fail::new(format!("{P} unreadable"), e))?;
             if let Some((part, d)) = before_create.diff(&after) {
-                return Err(Fail::new(format!("{P} refused-create-changed part={part}"), format!("create_table returned Err but {part} changed: {}; {}", &d[..d.len().min(300)], describe(db))));
+                return Err(Fail::new(format!("{P} refused-create-changed part={part}"), format!("create_table returned Err but {part} changed: {}; {}", crate::engine::clip(&d, 300), describe(db))));
             }
             st.class("phase2:create-table-refused");
         }
     }
     let api_now = observe(&mut pkg).map_err(|e| Fail::new(format!("{P} unreadable"), e))?;
     if let Some((part, d)) = expected.canon().diff(&without_catalog(&api_now).canon()) {
-        return Err(Fail::new(format!("{P} changes-not-reflected part={part}"), format!("after API changes: expected vs reported: {}; {}", &d[..d.len().min(500)], describe(db))));
+        return Err(Fail::new(format!("{P} changes-not-reflected part={part}"), format!("after API changes: expected vs reported: {}; {}", crate::engine::clip(&d, 500), describe(db))));
     }
     pkg.flush().map_err(|e| io("flush", e))?;
     let saved = buf.bytes();
@@ -185,7 +185,7 @@ pub fn check_db(db: &AbsDb, st: &mut Stats) -> Check {
     let mut again = Package::open(SharedBuf::new(saved)).map_err(|e| Fail::new(format!("{P} saved-file kind=reopen"), format!("{e}; {}", describe(db))))?;
     let re = observe(&mut again).map_err(|e| Fail::new(format!("{P} unreadable"), e))?;
     if let Some((part, dd)) = api_now.canon().diff(&re.canon()) {
-        return Err(Fail::new(format!("{P} saved-file kind=round-trip part={part}"), format!("{}; {}", &dd[..dd.len().min(400)], describe(db))));
+        return Err(Fail::new(format!("{P} saved-file kind=round-trip part={part}"), format!("{}; {}", crate::engine::clip(&dd, 400), describe(db))));
     }
     Ok(())
 }
@@ -253,7 +253,13 @@ pub fn features(db: &AbsDb) -> Vec<&'static str> {
 fn page_string(page_id: i32) -> BoxedStrategy<String> {
     let page = cpref::page_by_id(page_id).unwrap();
     let rep: Vec<char> = cpref::repertoire(page).into_iter().filter(|c| *c != '\u{feff}' && !c.is_control()).collect();
+    let mut boms = cpref::bom_lookalikes(page);
+    if boms.is_empty() {
+        boms.push("a".to_string());
+    }
     prop_oneof![
+        // strings whose encoded form starts like a byte-order mark
+        1 => (prop::sample::select(boms), prop::sample::select(vec!["", "a", "AB"])).prop_map(|(b, t)| format!("{b}{t}")),
         3 => prop::sample::select(vec!["a", "b", "Name", "x y", "Value", "k", "T", "A", "0"]).prop_map(|s| s.to_string()),
         2 => prop::collection::vec(prop::sample::select(rep.clone()), 1..5).prop_map(|v| v.into_iter().collect::<String>()),
         // 1025..3000 characters: the encoded form crosses the block sizes
